@@ -113,27 +113,68 @@ def loop_header(body, pos):
     return ''
 
 def frame_steps(name, fns, recv='self'):
-    """generic ordered `(binding-or-loop-range, call)` list of a framing function: every `self.<m>(` call, `*` when
-    inside a loop (then the first component is the last identifier of the loop header: the count it runs over)"""
+    """generic ordered `(what, call)` list of a framing function: every `<recv>.<m>(` call in source order, `*` when inside
+    a loop, `?` inside a conditional.  `what` is rename-proof: `@i` when the loop the call sits in runs over the value bound
+    by step i (a count read earlier), `.f` when the argument / loop collection is the field `f` of the function's value
+    parameter (public struct fields), `_` otherwise (names of locals are not recorded)"""
     sig, body = fns[name]
-    steps = []
+    pm = re.match(r'\s*&(?:\'\w+\s+)?mut\s+self\s*,\s*(\w+)\s*:', sig)
+    x = pm.group(1) if pm else None
+    raw = []
     for m in re.finditer(r'\b(?:%s)\s*\.\s*(\w+)\s*\(' % recv, body):
         meth = m.group(1)
         mark = ctx_marker(body, m.start())
         stmt_start = max(body.rfind(';', 0, m.start()), 0)
         lm = None
         for lm in re.finditer(r'\blet\s+(?:mut\s+)?(\(?[\w, ]+\)?)\s*(?::[^=]+)?=', body[stmt_start:m.start()]): pass
-        bind = re.sub(r'\s', '', lm.group(1)) if lm else '_'
-        if mark == '*':
-            ids = re.findall(r'[A-Za-z_]\w*', loop_header(body, m.start()))
-            bind = ids[-1] if ids else '_'
-        if bind == '_':
-            ae = match_brace(body, m.end() - 1, '(', ')')
-            ids = re.findall(r'[A-Za-z_]\w*', body[m.end():ae - 1])
-            ids = [i for i in ids if i not in ('as', 'usize', 'u16', 'u8', 'len', 'mut')]
-            if ids: bind = ids[-1]
-        steps.append((bind, meth + mark))
+        bind = re.sub(r'\s', '', lm.group(1)) if lm else None
+        ae = match_brace(body, m.end() - 1, '(', ')')
+        arg = body[m.end():ae - 1]
+        hdr = loop_header(body, m.start()) if mark == '*' else ''
+        raw.append((bind, meth, mark, arg, hdr))
+    steps = []
+    for i, (bind, meth, mark, arg, hdr) in enumerate(raw):
+        what = '_'
+        fm = re.findall(r'\b%s\s*\.\s*(\w+)' % x, arg + ' ' + hdr) if x else []
+        if fm: what = '.' + fm[0]
+        elif hdr:
+            for j in range(i):
+                if raw[j][0] and re.search(r'\b%s\b' % re.escape(raw[j][0]), hdr): what = '@%d' % j; break
+        steps.append((what, meth + mark))
     return steps
+
+def match_arms(body, scrutinee_re):
+    """arms [(pattern, arm body)] of the first `match <scrutinee> {` in `body`"""
+    m = re.search(r'match\s+' + scrutinee_re + r'\s*\{', body)
+    if not m: raise ValueError('no match on %s' % scrutinee_re)
+    end = match_brace(body, m.end() - 1)
+    t = body[m.end():end - 1]
+    arms = []; i = 0
+    while i < len(t):
+        j = t.find('=>', i)
+        if j < 0: break
+        pat = t[i:j].strip()
+        k = j + 2
+        while k < len(t) and t[k].isspace(): k += 1
+        if k < len(t) and t[k] == '{':
+            e = match_brace(t, k); arm = t[k + 1:e - 1]
+            while e < len(t) and (t[e].isspace() or t[e] == ','): e += 1
+        else:
+            d = 0; e = k
+            while e < len(t):
+                c = t[e]
+                if c in '({[': d += 1
+                elif c in ')}]': d -= 1
+                elif c == ',' and d == 0: break
+                e += 1
+            arm = t[k:e]; e += 1
+        arms.append((re.sub(r'\s+', ' ', pat), arm))
+        i = e
+    return arms
+
+def arm_calls(arm):
+    return [re.sub(r'\s', '', mm.group(1)) + ctx_marker(arm, mm.start()) for mm in re.finditer(r'self\s*\.\s*(\w+)\s*\(', arm)
+            if mm.group(1) not in NONCONSUMING]
 
 def dec_steps(name, fns, depth=0):
     """ordered (binding, primitive) steps of decoder function `name`; raises ValueError when not straight-line"""
@@ -266,11 +307,55 @@ def main(repo, outdir):
     grab('dec.rr_header', 'decode/rr/enums.rs', 'rr_header')
     grab('dec.rr_data', 'decode/rr/enums.rs', 'rr_data')
     grab('dec.rr', 'decode/rr/enums.rs', 'rr', recv='self|r_data')
-    frames[:] = [(l, [x for x in st if not (l == 'dec.rr' and x[0] == 'rr')]) for l, st in frames]   # the dispatch arms are `decDispatch`
+    frames[:] = [(l, [x for x in st if not (l == 'dec.rr' and any(x[1] == d[2].split('/')[0] for d in res['decDispatch']))]) for l, st in frames]   # the dispatch arms are `decDispatch`
     grab('enc.dns', 'encode/dns.rs', 'dns')
     grab('enc.count', 'encode/dns.rs', 'count')
     grab('enc.question', 'encode/question.rs', 'question')
+    grab('dec.opt', 'decode/rr/edns/rfc_6891.rs', 'rr_opt')
+    grab('dec.edns_option', 'decode/rr/edns/rfc_6891.rs', 'rr_edns_option', recv='self|ends_option_data')
+    grab('dec.apl', 'decode/rr/rfc_3123.rs', 'rr_apl')
+    grab('dec.apitem', 'decode/rr/rfc_3123.rs', 'rr_apl_apitem', recv='self|address_data')
+    grab('dec.svcb', 'decode/rr/draft_ietf_dnsop_svcb_https.rs', 'rr_service_binding', recv='self|parameter_decoder')
+    grab('enc.opt', 'encode/rr/edns/rfc_6891.rs', 'rr_opt')
+    grab('enc.edns_option', 'encode/rr/edns/rfc_6891.rs', 'rr_edns_option')
+    grab('enc.apitem', 'encode/rr/rfc_3123.rs', 'rr_apl_apitem')
+    grab('enc.svcb', 'encode/rr/draft_ietf_dnsop_svcb_https.rs', 'rr_service_binding')
     res['frames'] = frames
+    # ---------- SvcParam kinds: registered numbers, value readers and writers per kind
+    svc = {'numbers': [], 'dec': [], 'enc': []}
+    try:
+        t = strip_comments((src / 'rr' / 'draft_ietf_dnsop_svcb_https.rs').read_text())
+        fs = functions(t)
+        for pat, arm in match_arms(fs['get_registered_number'][1], r'self'):
+            k = re.match(r'ServiceParameter::(\w+)', pat)
+            svc['numbers'].append((k.group(1) if k else pat, arm.strip()))
+        fs = functions(strip_comments((src / 'decode' / 'rr' / 'draft_ietf_dnsop_svcb_https.rs').read_text()))
+        for pat, arm in match_arms(fs['rr_service_parameter'][1], r'service_parameter_key'):
+            k = re.search(r'ServiceParameter::(\w+)', arm)
+            svc['dec'].append((pat, k.group(1) if k else '?', arm_calls(arm)))
+        fs = functions(strip_comments((src / 'encode' / 'rr' / 'draft_ietf_dnsop_svcb_https.rs').read_text()))
+        for pat, arm in match_arms(fs['rr_service_parameter'][1], r'parameter'):
+            k = re.match(r'ServiceParameter::(\w+)', pat)
+            svc['enc'].append((k.group(1) if k else pat, arm_calls(arm)))
+    except (ValueError, KeyError, OSError) as e:
+        res['unreadable'].append(('svcparam', 'tables', str(e)[:80]))
+        svc = {'numbers': [], 'dec': [], 'enc': []}
+    # ---------- EDNS options: code dispatch on both sides
+    opt = {'dec': [], 'enc': []}
+    try:
+        fs = functions(strip_comments((src / 'decode' / 'rr' / 'edns' / 'rfc_6891.rs').read_text()))
+        f0 = next(b for n, (sg, b) in fs.items() if 'match edns_option_code' in b)
+        for pat, arm in match_arms(f0, r'edns_option_code'):
+            k = re.search(r'EDNSOption::(\w+)\s*\(\s*\w+\s*\.\s*(\w+)', arm)
+            opt['dec'].append((pat.replace('EDNSOptionCode::', ''), k.group(1) if k else '?', k.group(2) if k else '?'))
+        fs = functions(strip_comments((src / 'encode' / 'rr' / 'edns' / 'rfc_6891.rs').read_text()))
+        f1 = next(b for n, (sg, b) in fs.items() if re.search(r'EDNSOption::\w+\s*\(', b) and 'match' in b)
+        for pat, arm in match_arms(f1, r'\w+'):
+            k = re.match(r'EDNSOption::(\w+)', pat); c = re.search(r'self\s*\.\s*(\w+)', arm)
+            opt['enc'].append((k.group(1) if k else pat, c.group(1) if c else '?'))
+    except (ValueError, KeyError, OSError, StopIteration) as e:
+        res['unreadable'].append(('edns', 'dispatch', str(e)[:80]))
+        opt = {'dec': [], 'enc': []}
     os.makedirs(outdir, exist_ok=True)
     with open(os.path.join(outdir, 'Steps.lean'), 'w') as f:
         f.write('/-! GENERATED by tools/extract_steps.py from /repo/src/decode/rr and /repo/src/encode/rr on every run. Do not edit. -/\n')
@@ -287,6 +372,16 @@ def main(repo, outdir):
                                        'true' if (hd['owner'] and hd['ttl'] and hd['order_ok']) else 'false', lean_pairs(s)) for v, (hd, s) in res['enc'].items()) + ']\n')
         f.write('/-- framing functions: every `self.<m>(…)` call in source order with what it is bound to / applied to\n    (`*` = inside a loop; the first component is then the count or collection the loop runs over) -/\n')
         f.write('def frameSteps : List (String × List (String × String)) := [\n' + ',\n'.join('  (%s, %s)' % (lean_str(l), lean_pairs(st)) for l, st in frames) + ']\n')
+        lst = lambda xs: '[' + ', '.join(lean_str(x) for x in xs) + ']'
+        f.write('/-- `ServiceParameter::get_registered_number`: kind and the arm\'s value (`*number` for the private range) -/\n')
+        f.write('def svcNumbers : List (String × String) := ' + lean_pairs(svc['numbers']) + '\n')
+        f.write('/-- `Decoder::rr_service_parameter`: key pattern, kind built, reader calls of the arm -/\n')
+        f.write('def svcDec : List (String × String × List String) := [\n' + ',\n'.join('  (%s, %s, %s)' % (lean_str(a), lean_str(b), lst(c)) for a, b, c in svc['dec']) + ']\n')
+        f.write('/-- `Encoder::rr_service_parameter`: kind, writer calls of the arm (after the key and the length placeholder) -/\n')
+        f.write('def svcEnc : List (String × List String) := [\n' + ',\n'.join('  (%s, %s)' % (lean_str(a), lst(c)) for a, c in svc['enc']) + ']\n')
+        f.write('/-- EDNS option dispatch: decoder (code, variant, reader) and encoder (variant, writer) -/\n')
+        f.write('def optDec : List (String × String × String) := [' + ', '.join('(%s, %s, %s)' % tuple(map(lean_str, x)) for x in opt['dec']) + ']\n')
+        f.write('def optEnc : List (String × String) := ' + lean_pairs(opt['enc']) + '\n')
         f.write('/-- functions the extractor could not read as straight-line code: (side, type, reason) -/\n')
         f.write('def stepsUnreadable : List (String × String × String) := [\n' + ',\n'.join('  (%s, %s, %s)' % tuple(map(lean_str, x)) for x in res['unreadable']) + ']\n')
         f.write('end Gen\n')
